@@ -20,6 +20,9 @@ THEOREMS = [
     "VK.C03_step_accounting",
     "VK.C03_total_nonincreasing",
     "VK.C03_full_transfer_keeps_weights",
+    "VK.randomAssign_spec",
+    "VK.C03_random_transfer",
+    "VK.C03_step_accounting_both",
 ]
 RULE = ("cases = (a) direct calls of fractional_transfer / random_transfer on ballot lists with duplicates, bullet votes "
         "(exhausting), ballots not led by the winner, ballots listing the winner lower down, 20% with tied lower "
